@@ -851,7 +851,28 @@ func runC23(c *Ctx) {
 	for _, m := range kvMutators {
 		fn := c.Func("kv/sqlite3", "SqliteKV", m)
 		wcalls := fn.CallsTo(false, "kv/sqlite3.withWriteTx")
-		c.Ob("tracker-pairing", "sqlite."+m+"#single-write-tx", fn.Decl.Pos(), len(wcalls) == 1, fmt.Sprintf("all statements of a mutating method run in one write transaction (%d found)", len(wcalls)))
+		// one call site that runs once: not inside a loop
+		inLoop := false
+		for _, wc := range wcalls {
+			var stack []ast.Node
+			ast.Inspect(fn.Body, func(x ast.Node) bool {
+				if x == nil {
+					stack = stack[:len(stack)-1]
+					return true
+				}
+				stack = append(stack, x)
+				if x == ast.Node(wc) {
+					for _, s := range stack {
+						switch s.(type) {
+						case *ast.ForStmt, *ast.RangeStmt:
+							inLoop = true
+						}
+					}
+				}
+				return true
+			})
+		}
+		c.Ob("tracker-pairing", "sqlite."+m+"#single-write-tx", fn.Decl.Pos(), len(wcalls) == 1 && !inLoop, fmt.Sprintf("all statements of a mutating method run in ONE write transaction (%d transaction site(s) found, inside a loop: %v)", len(wcalls), inLoop))
 		if len(wcalls) != 1 {
 			continue
 		}
